@@ -25,6 +25,7 @@ import (
 	_ "github.com/tencent/goom/verifsim/worlds/hist"
 	_ "github.com/tencent/goom/verifsim/worlds/ifacew"
 	_ "github.com/tencent/goom/verifsim/worlds/memw"
+	_ "github.com/tencent/goom/verifsim/worlds/originw"
 	_ "github.com/tencent/goom/verifsim/worlds/spacew"
 	_ "github.com/tencent/goom/verifsim/worlds/stubw"
 	_ "github.com/tencent/goom/verifsim/worlds/symw"
